@@ -473,6 +473,18 @@ def check_case(case):
     return ";".join(outs), problems
 
 
+def _budget_exhausted(ctx, t0, n):
+    """a broken tree can make every history slow (leaks, lock waits): stop generating in time
+    and judge what was run"""
+    import time
+
+    limit = 70 if ctx.tier == "quick" else 650
+    if time.time() - t0 > limit:
+        ctx.assumptions.append("time budget reached after %d cases; remaining generated cases not run" % n)
+        return True
+    return False
+
+
 def run(ctx, deep=False):
     ctx.rule = (
         "histories of add/set/delete (pending changes) interleaved with ORM queries (filters, join), counts, Core selects, Session.get and lazy "
@@ -480,8 +492,13 @@ def run(ctx, deep=False):
         "tables); random (seeded) + all 2-op (4% quick / all thorough 3-op) sequences over a 19-letter alphabet; every autoflush=True history is run "
         "twice (autoflush vs explicit flush + no_autoflush); non-trivial = at least one reading operation executed with pending changes"
     )
+    import time
+
+    t0 = time.time()
     cases, impl_out, reqs = [], [], []
     for case in gen_cases(ctx, deep):
+        if _budget_exhausted(ctx, t0, len(cases)):
+            break
         line, problems = check_case(case)
         jc = jsonable(case)
         ctx.case((case["af"], jc["ops"]), nontrivial=True)
